@@ -117,10 +117,36 @@ struct Registry {
     Meth meths[MAXM];
 };
 
-enum Presentation { PRES_FULL = 0, PRES_DIRECT = 1, PRES_FULL_NOSELF = 2 };
+enum Presentation { PRES_FULL = 0, PRES_DIRECT = 1, PRES_FULL_NOSELF = 2, PRES_SPLIT = 3 };
 
 // default presentations: one record per class, in label order
 inline void present(Registry& r, Presentation pres, bool reverse = false) {
+    if (pres == PRES_SPLIT) {
+        // the incremental style: one record per (class, direct base) pair,
+        // each listing the class itself and that base
+        r.nr = 0;
+        for (int i = 0; i < r.po.n; ++i) {
+            int c = reverse ? r.po.n - 1 - i : i;
+            uint8_t bs = direct_bases(r.po, c);
+            bool any = false;
+            for (int b = 0; b < r.po.n; ++b)
+                if ((bs >> b & 1) && r.nr < MAXR) {
+                    Rec& rec = r.recs[r.nr++];
+                    rec = Rec();
+                    rec.cls = c;
+                    rec.bases[rec.nb++] = c;
+                    rec.bases[rec.nb++] = b;
+                    any = true;
+                }
+            if (!any && r.nr < MAXR) {
+                Rec& rec = r.recs[r.nr++];
+                rec = Rec();
+                rec.cls = c;
+                rec.bases[rec.nb++] = c;
+            }
+        }
+        return;
+    }
     r.nr = r.po.n;
     for (int i = 0; i < r.po.n; ++i) {
         int c = reverse ? r.po.n - 1 - i : i;
